@@ -28,13 +28,23 @@ def play(case):
     m = msgs.fill(cls(), rnd, uid_len=case['uid_len'], ids=case['ids'])
     init = elems_of(m)
     ops, sends = [], []
-    for op in case['ops']:
-        if op[0] == 'send':
-            pdus = msgs.send_via_association(m, op[1], op[2])
+    queued = []
+
+    def drain():
+        # the provider thread gets round to what was queued only now - after the application has gone on changing the
+        # message object: what goes out must be the message as it was when send() was called
+        while queued:
+            pdus = list(queued.pop(0))
             cmd = b''.join(it.data_value[1:] for p in pdus for it in p.data_value_items if it.data_value[0] in (1, 3))
             dfr = ['%d.%d.%s' % (it.context_id, it.data_value[0], it.data_value[1:].hex()) for p in pdus
                    for it in p.data_value_items if it.data_value[0] in (0, 2)]
             sends.append((cmd, dfr))
+    for op in case['ops']:
+        if op[0] == 'send':
+            drain()
+            a = msgs.stub_association(op[2])
+            a.send(m, op[1])
+            queued.append(a.dul.sent[0])
             ops.append('S:%d:%d' % (op[1], op[2]))
         elif op[0] == 'data':
             v = None if op[1] is None else bytes.fromhex(op[1])
@@ -52,6 +62,7 @@ def play(case):
             else:
                 continue
             ops.append('F:%d:%s' % (tag, value_bytes(m, tag).hex() or '-'))
+    drain()
     line = 'msg-run none %s -- %s' % (' '.join('%d:%s' % (t, v.hex() or '-') for t, v in init), ' '.join(ops))
     return sends, line, cls.__name__
 
